@@ -22,7 +22,7 @@ MIN_NONTRIVIAL = {"quick": 150, "thorough": 1500}
 REQUIRED_PROBES = ["coarsener_init", "greedy_prune"]
 REQUIRED_FEATURES = ["sched:sequential", "sched:pool", "sched:functor:reverse_eval_map", "sched:functor:eager_map",
                      "k>bins-of-every-chromosome", "chunksize:1", "algebra:chain", "algebra:merge-commute",
-                     "mode:square", "mode:symm", "agg:max", "coarsen:spans>1", "family:variable", "family:trap",
+                     "mode:square", "mode:symm", "agg:max", "agg:count:pool", "coarsen:spans>1", "family:variable", "family:trap",
                      "counts:float-fractional", "agg:mean+dtype:float", "base:legacy-without-storage-mode-attr",
                      "history:failed-parallel-coarsen-then-valid-one", "via:cli-coarsen:field-dtype+agg", "sums:beyond-int32",
                      "family:coarse_trap", "via:cli-coarsen", "family:giant_variable",
@@ -72,6 +72,14 @@ def check_output(c, out, group, bt, P, E, k, symm, agg, label):
                                          f"[{label}] value column 'score' was requested (columns=['count','score']) but the "
                                          f"coarsened pixel table has no such column"):
             pass
+        elif E is not None and agg == "count":
+            m_ = model.ref_coarsen_map(bt, k)
+            cnt = {}
+            for (i_, j_) in E:
+                cnt[(m_[i_], m_[j_])] = cnt.get((m_[i_], m_[j_]), 0) + 1
+            c.check([float(x) for x in cols["score"].tolist()] == [float(cnt[x]) for x in wk], "coarse-extra-column-differs:count",
+                    f"[{label}] extra column != number of old pixels in each block",
+                    lambda: {"got": cols["score"].tolist()[:20], "want": [cnt[x] for x in wk][:20]})
         elif E is not None:
             wantE = model.ref_coarsen(bt, E, k, agg or "sum")
             c.check(cols["score"].tolist() == [wantE[x] for x in wk], f"coarse-extra-column-differs:{agg or 'sum'}",
@@ -151,7 +159,7 @@ def one_base(ctx, shard, i, rng):
             if not ctx.want(cid):
                 continue
             out = os.path.join(d, f"out_k{k}_{x}.cool")
-            agg = {"score": "max"} if two and x % 3 == 1 else None
+            agg = {"score": "max"} if two and x % 3 == 1 else ({"score": "count"} if two and (x % 3 == 2 or kind == "pool") else None)
             desc = dict(base_desc, factor=k, chunksize=cs, schedule=[kind, arg], agg=agg)
             with ctx.case(cid, desc) as c:
                 c.feature(f"mode:{'symm' if symm else 'square'}", f"family:{fam}", f"chunksize:{cs if cs < 4 else 'big'}")
@@ -160,7 +168,7 @@ def one_base(ctx, shard, i, rng):
                 elif k > minb:
                     c.feature("k>bins-of-some-chromosome")
                 if agg:
-                    c.feature("agg:max")
+                    c.feature(f"agg:{agg['score']}" + (":pool" if kind == "pool" and agg["score"] == "count" else ""))
                 if float_counts:
                     c.feature("counts:float-fractional")
                 if legacy:
@@ -171,7 +179,7 @@ def one_base(ctx, shard, i, rng):
                     from cooler.cli import cli
                     args = ["coarsen", base, "-k", str(k), "-c", str(cs), "-o", out]
                     if two:
-                        args += ["--field", "count", "--field", "score" + (":agg=max" if agg else "")]
+                        args += ["--field", "count", "--field", "score" + (f":agg={agg['score']}" if agg else "")]
                     r = CliRunner().invoke(cli, args)
                     c.feature("sched:sequential", "via:cli-coarsen")
                     if r.exit_code != 0:
